@@ -4,6 +4,18 @@
 set -e
 FL="$1"; REPO="${2:-/repo}"
 VERIF="$(cd "$(dirname "$0")/.." && pwd)"
+if [ "$FL" = drd ]; then
+  # the plain world under valgrind's DRD: operand-memory races at every access width, assembly kernels included
+  "$0" plain "$REPO"
+  mkdir -p "$VERIF/build/drd_logs"
+  {
+    echo '#!/bin/sh'
+    echo "export SIM_DRD_LOGDIR=\"$VERIF/build/drd_logs\""
+    echo "exec valgrind --tool=drd -q --log-file=\"$VERIF/build/drd_logs/%p.log\" --check-stack-var=no --first-race-only=yes \"$VERIF/build/world_plain\" \"\$@\""
+  } > "$VERIF/build/world_drd"
+  chmod +x "$VERIF/build/world_drd"
+  exit 0
+fi
 "$VERIF/checks/build_lib.sh" "$FL" "$REPO"
 B="$VERIF/build/$FL"; S="$VERIF/sim"; OUT="$VERIF/build/world_$FL"
 WRAP="-Wl,--wrap=malloc,--wrap=calloc,--wrap=realloc,--wrap=free,--wrap=aligned_alloc,--wrap=posix_memalign,--wrap=memalign,--wrap=malloc_usable_size"
